@@ -160,6 +160,9 @@ pub fn out_size() -> BoxedStrategy<u32> {
         2 => 1u32..=64,
         2 => 1u32..=5000,
         1 => proptest::sample::select(vec![85194u32, 85195, 85196, 85197, 85198]),
+        // between "a few KiB" and the direct-write threshold: the block is assembled in the
+        // compressor's own buffer and handed over in pieces of this size
+        1 => prop_oneof![1 => Just(32_768u32), 1 => 32_769u32..=34_000, 2 => 5_000u32..=90_000],
         2 => Just(1u32 << 20),
     ]
     .boxed()
